@@ -668,13 +668,29 @@ def match_f5(case: dict, detail: dict) -> Optional[str]:
     return None
 
 
+def match_f6(case: dict, detail: dict) -> Optional[str]:
+    """C12-F6: mechanism hint-meta-ns; EVERY fetch of the run is the url of an XMLResource constructed with allow='all'
+    (the configured mode being another one) from check_dynamic_context (hint for a meta-schema namespace)."""
+    if not str(case.get('mech', '')).endswith('hint-meta-ns') or case.get('allow') == 'all':
+        return None
+    recs = [r for r in detail.get('allow_all', ()) if 'elements.check_dynamic_context' in r['callers']]
+    urls = {r['url'] for r in recs}
+    paths = {url_path(u) for u in urls if not is_remote_scheme(u)}
+    fetched = list(detail.get('requests', ())) + list(detail.get('served', ()))
+    if not recs or not (fetched or detail.get('opened')):
+        return None
+    if all(u in urls for u in fetched) and all(p in paths for p in detail.get('opened', ())):
+        return 'C12-F6'
+    return None
+
+
 def known_match(case: dict, detail: dict) -> Optional[str]:
     """Exact rules of notes/findings/C12.json.
 
     C12-F2 / C12-F3: allow='sandbox', no explicit base_url; every file opened outside the sandbox is the URL
     of an XMLResource that the library constructed with base_url=None (so that its sandbox was derived from
     its own location) from the finding's call site.  Anything else opened outside the sandbox is a violation."""
-    f5 = match_f5(case, detail)
+    f5 = match_f5(case, detail) or match_f6(case, detail)
     if f5:
         return f5
     if case.get('allow') != 'sandbox' or detail.get('what') not in SANDBOX_WHATS:
@@ -1368,6 +1384,7 @@ def explore(ctx: Ctx, drv: Optional[Driver], full: bool) -> None:
         trace_cases(ctx, drv, tree)
         render_cases(ctx, drv, tree)
         coding_cases(ctx, drv)
+        construct_cases(ctx, tree, batch if drv is not None else None)
         if drv is not None:
             compare_batch(ctx, batch, drv)
             ctx.extra['driver_requests'] = len(batch.reqs)
@@ -1605,7 +1622,12 @@ def degenerate_base_cases(ctx: Ctx, tree: Tree, batch: Optional[Batch]) -> None:
     try:
         for ci, cwd in enumerate([tree.sand, os.path.join(R, 'other'), tree.root2]):
             os.chdir(cwd)
-            for bi, (label, base, E) in enumerate(degenerate_bases(cwd)):
+            bases = degenerate_bases(cwd)
+            if ctx.quick() and ci > 0:      # the full list for the first working directory, the falsy / typed core for the others
+                core_labels = {'empty', 'blank', 'dot', 'file-colon', 'bytes-empty', 'pathlib-dot', 'pathlib-empty', 'rel-sub', 'dotdot',
+                               'cwd-slash'}
+                bases = [b for b in bases if b[0] in core_labels]
+            for bi, (label, base, E) in enumerate(bases):
                 outside_dirs = [d for d in pool if not inside(E, d)]
                 if not ctx.quick():
                     outside_dirs = outside_dirs[:2] + outside_dirs[-2:-1]     # in-tree siblings and the second tree
@@ -1640,6 +1662,164 @@ def degenerate_base_cases(ctx: Ctx, tree: Tree, batch: Optional[Batch]) -> None:
                                     ctx.count('impl-access:' + a['decision'])
                                 if batch is not None:
                                     collect_model_requests(batch, case, obs, cwd)
+    finally:
+        os.chdir(old_cwd)
+
+
+CTORS_BUILD = ['plain', 'parent', 'no-meta', 'global-maps', 'build-later']
+CTORS_POST = ['post-call', 'copy', 'pickle', 'deepcopy-maps']
+XML_NS = 'http://www.w3.org/XML/1998/namespace'
+
+
+def run_construct(tree: Tree, allow: str, ctor: str, mech: str, loc: str, xsd11: bool, kind: str, idx: int) -> dict:
+    """how the schema object comes into being x mechanism: the settings seen by EVERY fetch must be the requested ones"""
+    import copy
+    import pickle
+    from xmlschema import XMLSchema10, XMLSchema11
+    from xmlschema.exceptions import XMLSchemaException
+    cls = XMLSchema11 if (xsd11 or mech == 'override') else XMLSchema10
+    post = ctor in CTORS_POST
+    build_mech = 'locations' if (post or mech in ('hint-dynamic', 'hint-meta-ns')) else mech
+    text = DYN_SCHEMA if mech in ('hint-dynamic', 'hint-meta-ns') else main_text(build_mech, loc)
+    name = f'ct_{idx % 5}.xsd'
+    path = os.path.join(tree.sand, name)
+    with open(path, 'w') as f:
+        f.write(text)
+    kwargs: dict[str, Any] = {'allow': allow}
+    if kind == 'path':
+        src: Any = path
+    else:
+        src = text
+        kwargs['base_url'] = tree.sand
+    if mech == 'uri-mapper':
+        kwargs['uri_mapper'] = {'urn:c12:mapped': loc}
+    if build_mech in ('locations', 'locations-lazy') and not post and mech in ('locations', 'locations-lazy'):
+        kwargs['locations'] = {'urn:imp': loc}
+    if mech == 'hint-meta-ns':
+        instance = (f'<m xmlns:xsi="{XSI}"><i:r xmlns:i="urn:other" xsi:schemaLocation="{XML_NS} {loc.replace(" ", "%20")}">x</i:r></m>')
+    else:
+        instance = main_text('hint-dynamic', loc)
+    doc_lazy = os.path.join(tree.sand, 'doc_lazy.xml')
+    if not os.path.exists(doc_lazy):
+        with open(doc_lazy, 'w') as f:
+            f.write('<m><i:r xmlns:i="urn:imp">x</i:r></m>')
+    Obs.table = dict(tree.table)
+    Obs.events, Obs.served, Obs.access, Obs.inits = [], [], [], []
+    obs: dict[str, Any] = {'outcome': 'ok', 'elements': [], 'sandbox_dir': tree.sand, 'main_path': path}
+    schema = None
+    with warnings.catch_warnings():
+        warnings.simplefilter('ignore')
+        Obs.active = True
+        try:
+            if ctor in ('plain',) or post:
+                schema = cls(src, **kwargs)
+            elif ctor == 'parent':
+                schema = cls(src, parent=cls(leaf_inc('ctor_parent')), **kwargs)
+            elif ctor == 'no-meta':
+                schema = cls(src, use_meta=False, **kwargs)
+            elif ctor == 'global-maps':
+                owner = cls(leaf_inc('ctor_owner'), **{k: v for k, v in kwargs.items() if k != 'locations'},
+                            **({} if 'base_url' in kwargs else {'base_url': tree.sand}))
+                schema = cls(src, global_maps=owner.maps, build=False,
+                             **({'locations': kwargs['locations']} if 'locations' in kwargs else {}))
+                schema.build()
+            elif ctor == 'build-later':
+                schema = cls(src, build=False, **kwargs)
+                schema.build()
+            if ctor == 'copy':
+                schema = copy.copy(schema)
+            elif ctor == 'pickle':
+                schema = pickle.loads(pickle.dumps(schema))
+            elif ctor == 'deepcopy-maps':
+                schema = schema.maps.copy().validator
+                if not schema.built:
+                    schema.build()
+            if post and mech in ('include', 'redefine', 'uri-mapper'):
+                schema.include_schema('urn:c12:mapped' if mech == 'uri-mapper' else loc, build=True)
+            elif post and mech == 'import':
+                schema.import_schema('urn:imp', loc, build=True)
+            elif post and mech == 'add-schema':
+                schema.add_schema(loc, build=True)
+            elif post and mech == 'load-namespace':
+                schema.maps.loader.locations['urn:imp'] = [loc] if hasattr(schema.maps.loader.locations, '__setitem__') else None
+                schema.load_namespace('urn:imp')
+            if mech == 'locations-lazy':
+                obs['lazy_errors'] = len(list(schema.iter_errors(doc_lazy)))
+            if mech in ('hint-dynamic', 'hint-meta-ns'):
+                errs = list(schema.iter_errors(instance, use_location_hints=True))
+                obs['outcome'] = 'invalid' if errs else 'ok'
+        except (XMLSchemaException, OSError) as e:
+            obs['outcome'] = type(e).__name__
+            obs['message'] = str(e)[:160]
+        except Exception as e:      # noqa
+            obs['outcome'] = 'FOREIGN:' + type(e).__name__
+            obs['message'] = str(e)[:160]
+        finally:
+            Obs.active = False
+    if schema is not None:
+        try:
+            obs['elements'] = sorted(k.split('}')[-1] for k in schema.maps.elements if not k.startswith('{' + XS))
+            obs['maps_allow'] = schema.maps.settings.allow
+            obs['schema_allow'] = schema.allow
+        except Exception:       # noqa
+            pass
+    obs.update(events=list(Obs.events), served=list(Obs.served), access=list(Obs.access), inits=list(Obs.inits))
+    return obs
+
+
+def construct_cases(ctx: Ctx, tree: Tree, batch: Optional[Batch]) -> None:
+    """allow mode x HOW THE SCHEMA OBJECT IS CONSTRUCTED (plain, parent=, use_meta=False, global_maps=, build=False then
+    build(), copy, pickle, maps copy, include_schema / import_schema / add_schema after construction) x XSD 1.0/1.1 x
+    mechanism x target class: the maps-level settings equal the requested ones and every fetch obeys them."""
+    R = tree.root
+    # a schema for the xml namespace (hint for a namespace owned by the meta-schema)
+    xmlns_path = os.path.join(R, 'other', 'xmlns.xsd')
+    with open(xmlns_path, 'w') as f:
+        f.write(f'<xs:schema xmlns:xs="{XS}" targetNamespace="{XML_NS}"><xs:attribute name="c12" type="xs:string"/></xs:schema>')
+    idx = 0
+    old_cwd = os.getcwd()
+    os.chdir(tree.sand)
+    try:
+        combos = [(c, m) for c in CTORS_BUILD for m in ('include', 'redefine', 'override', 'import', 'uri-mapper', 'locations',
+                                                        'locations-lazy', 'hint-dynamic')]
+        combos += [(c, m) for c in CTORS_POST for m in ('include', 'import', 'add-schema', 'uri-mapper', 'hint-dynamic')]
+        combos += [(c, 'hint-meta-ns') for c in CTORS_BUILD + CTORS_POST]        # LAST: pollutes the shared meta-schema maps (C12-F6)
+        for ci, (ctor, mech) in enumerate(combos):
+            f = 'inc.xsd' if mech in ('include', 'redefine', 'override', 'uri-mapper', 'add-schema') else 'imp.xsd'
+            if mech == 'hint-meta-ns':
+                sp = [('outside', 'file://' + xmlns_path), ('outside', '../other/xmlns.xsd')]
+            else:
+                sp = [('in', f), ('sibling', f'../sand_evil/{f}'), ('outside', f'{R}/other/{f}'), ('remote', f'{HOST}/other/{f}')]
+                if ctx.quick():
+                    sp = [sp[0], sp[1 + ci % 2], sp[3]]
+            for si, (tcls, loc) in enumerate(sp):
+                for ai, allow in enumerate(MODES):
+                    vers = [False, True] if not ctx.quick() else [bool((ci + si + ai) % 2)]
+                    for xsd11 in vers:
+                        kinds = ['path', 'text'] if not ctx.quick() else [['path', 'text'][(ci + si + ai) % 2]]
+                        for kind in kinds:
+                            idx += 1
+                            case = {'allow': allow, 'kind': kind, 'mech': 'construct:' + mech, 'ctor': ctor, 'xsd11': xsd11,
+                                    'loc': loc.replace(R, '$R'), 'class': tcls, 'idx': idx}
+                            obs = run_construct(tree, allow, ctor, mech, loc, xsd11, kind, idx)
+                            evaluate(ctx, tree, case, obs)
+                            det = {'outcome': obs['outcome'], 'maps_allow': obs.get('maps_allow'), 'schema_allow': obs.get('schema_allow')}
+                            # the maps-level settings are the requested ones, however the schema was constructed
+                            if obs.get('maps_allow') not in (None, allow) or obs.get('schema_allow') not in (None, allow):
+                                ctx.failure('the settings of the schema maps differ from the requested allow mode', case, det)
+                            for r in obs['inits']:
+                                if r['allow'] != allow and not known_match(case, {'what': '', 'allow_all': [
+                                        {'url': r['url'] or '', 'callers': r['callers']}], 'requests': [r['url'] or ''],
+                                        'served': [], 'opened': []}):
+                                    ctx.failure('a resource was constructed with another allow mode than the requested one', case,
+                                                {'source': r['source'], 'allow': r['allow'], 'callers': r['callers'][:6]})
+                                    break
+                            ctx.case(case, any(a['allow'] != 'all' and a['url'] is not None for a in obs['access']),
+                                     tag='mech:construct')
+                            ctx.count(f'construct:{ctor}')
+                            ctx.count('outcome:' + obs['outcome'])
+                            if batch is not None:
+                                collect_model_requests(batch, case, obs, tree.sand)
     finally:
         os.chdir(old_cwd)
 
@@ -1818,6 +1998,14 @@ def replay(ctx: Ctx, obj: dict) -> int:
             print('base_url =', repr(base), ' cwd =', case['cwd'], ' denotes', E.replace(tree.root2, '$R2').replace(tree.root, '$R'))
             obs = run_remote_base(tree, case['allow'], case['kind'], case['mech'].split(':', 1)[1], loc, base,
                                   case.get('idx', 0), sandbox_dir=E if case['allow'] == 'sandbox' else None, main_dir=E)
+        elif case['mech'].startswith('construct:'):
+            os.makedirs(os.path.join(tree.root, 'other'), exist_ok=True)
+            with open(os.path.join(tree.root, 'other', 'xmlns.xsd'), 'w') as f:
+                f.write(f'<xs:schema xmlns:xs="{XS}" targetNamespace="{XML_NS}"><xs:attribute name="c12" type="xs:string"/></xs:schema>')
+            print('constructor:', case['ctor'], ' XSD 1.1:', case['xsd11'])
+            obs = run_construct(tree, case['allow'], case['ctor'], case['mech'].split(':', 1)[1], loc, case['xsd11'],
+                                case['kind'], case.get('idx', 0))
+            print('  schema.allow =', obs.get('schema_allow'), ' maps.settings.allow =', obs.get('maps_allow'))
         elif case['mech'].startswith('remote-base:'):
             obs = run_remote_base(tree, case['allow'], case['kind'], case['mech'].split(':', 1)[1], loc, case['base'],
                                   case.get('idx', 0))
